@@ -408,6 +408,29 @@ Proof. intros. unfold recover_deferred, pop_frame. destruct (unwind_u_same c s) 
 Lemma abrupt_epilogue_same : forall s, same s (abrupt_epilogue s).
 Proof. intros. unfold abrupt_epilogue. destruct (Nat.eqb (cs s) 0); split; reflexivity. Qed.
 
+Lemma gen_intr_same : forall c o s o' s', gen_intr c o s = (o', s') -> same s s'.
+Proof.
+  intros c o s o' s' H. unfold gen_intr in H. inversion H; subst. destruct (unwind_u_same c s) as [A B].
+  split; simpl; assumption.
+Qed.
+
+Lemma gen_throw_same : forall c d s o' s', gen_throw c d s = (o', s') -> same s s'.
+Proof.
+  intros c d s o' s' H. unfold gen_throw in H. destruct (restore_to c d s) as [o1 s1] eqn:E.
+  pose proof (restore_to_same c d s) as [A B]. rewrite E in A, B. simpl in A, B.
+  destruct o1; inversion H; subst; try (destruct (unwind_u_same c s1) as [A' B']); split; simpl; congruence.
+Qed.
+
+Lemma gen_after_fin_same : forall c d pend o s o' s', gen_after_fin c d pend (o, s) = (o', s') -> same s s'.
+Proof.
+  intros c d pend o s o' s' H. unfold gen_after_fin in H. destruct o.
+  - destruct pend.
+    + apply gen_throw_same in H. destruct H as [A B]. split; simpl in *; assumption.
+    + inversion H; subst. split; reflexivity.
+  - eapply gen_throw_same; eassumption.
+  - eapply gen_intr_same; eassumption.
+Qed.
+
 Lemma same_refl : forall s, same s s. Proof. split; reflexivity. Qed.
 Lemma same_trans : forall a b d, same a b -> same b d -> same a d.
 Proof. unfold same. intros a b d [A B] [C D]. split; congruence. Qed.
@@ -494,11 +517,26 @@ Section Potential.
     - (* IForOf *) intros r l [IHl _] s o s' H. simpl in H. repeat brk;
         match goal with E : exec_seq c l _ = _ |- _ => apply IHl in E end; fin_R.
     - (* IGen *) intros l [_ [_ IHl]] s o s' H. simpl in H. eapply IHl; eauto.
-    - (* IGenRet *) intros pre IHp fin IHf s o s' H. simpl in H. repeat brk;
-        repeat match goal with
-        | E : exec_c c pre _ = _ |- _ => apply IHp in E
-        | E : exec_c c fin _ = _ |- _ => apply IHf in E
-        end; fin_R.
+    - (* IGenRet *) intros pre IHp fin IHf s o s' H. simpl in H.
+      destruct (exec_c c pre _) as [o1 s3] eqn:E1. apply IHp in E1.
+      assert (R0 : R c s s3).
+      { eapply R_trans; [| exact E1]. apply same_R. split; reflexivity. }
+      destruct o1.
+      + destruct (exec_c c fin _) as [o2 s6] eqn:E2. apply IHf in E2.
+        apply gen_after_fin_same in H.
+        assert (Hre : same s3 (gen_reenter (leave_gen (pop_frame s3)))) by (split; reflexivity).
+        eapply R_trans; [exact R0 |]. eapply R_trans; [apply same_R; exact Hre |].
+        eapply R_trans; [exact E2 | apply same_R; exact H].
+      + destruct (restore_to c _ s3) as [o' s4] eqn:E3.
+        match type of E3 with restore_to c ?d s3 = _ => pose proof (restore_to_same c d s3) as Hs end.
+        rewrite E3 in Hs. simpl in Hs.
+        assert (R1 : R c s s4) by (eapply R_trans; [exact R0 | apply same_R; exact Hs]).
+        destruct o'.
+        * apply gen_intr_same in H. eapply R_trans; [exact R1 | apply same_R; exact H].
+        * destruct (exec_c c fin s4) as [o2 s5] eqn:E2. apply IHf in E2. apply gen_after_fin_same in H.
+          eapply R_trans; [exact R1 |]. eapply R_trans; [exact E2 | apply same_R; exact H].
+        * apply gen_intr_same in H. eapply R_trans; [exact R1 | apply same_R; exact H].
+      + apply gen_intr_same in H. eapply R_trans; [exact R0 | apply same_R; exact H].
     - (* IAsync *) intros pre IHp post _ s o s' H. simpl in H. repeat brk;
         match goal with E : exec_c c pre _ = _ |- _ => apply IHp in E end; fin_R.
     - (* IJob *) intros b _ s o s' H. simpl in H. inversion H; subst. fin_R.
